@@ -11,6 +11,9 @@ NOTE = ("claims are over the reals within the bounds stated in the evidence file
         "classes and term transformations of /verif/vf (validated each run against the real code on floats), stub contracts listed in the evidence")
 
 CHECKS = {
+    "C08": ("5 C08", "relational: standalone flux calculation vs permeate-composition / separation-factor helpers vs one-point ideal curve on "
+                     "one symbolic question (3 modes x 2 models x 2 feed bases, real flux loop K = 1 (thorough 2), gamma-UFs keyed by model); "
+                     "process level: recorded arguments of every flux call equal the reported state, derived metrics of ProcessModel / DiffusionCurve"),
     "C11": ("5 C11", "relational: each process model run twice in one exploration with (kA, k m0) and (kA, dt/k), N = 3 steps (thorough 2..4), "
                      "callees as uninterpreted functions with Ackermann congruence, per-step state named and equalities chained as lemmas; "
                      "step-0 flux question must not mention A, m0, dt (free-variable check on the recorded argument terms)"),
